@@ -1,7 +1,7 @@
 META = {
     "level": "exploration",
     "technique": "symbolic TLA+ model of key serialisation (KeyIO.tla: file life cycle Prepare -> W_OpenCreate -> W_Serialize -> L_Load with permission bits, umask and passphrase tokens; comparison of key objects by kind) model-checked by TLC; every abstract case TLC emits is executed with real RSA/ECDSA/Ed25519 keys, real files under different umasks and real passphrases; TLC (KeyIO_Trace.tla) judges every observation with the design spec's own invariants",
-    "text": "TLC enumerates key type x target state (absent, dangling link, existing 0600/0644/0666, file object, bundled file) x umask x write passphrase x load passphrase x loader route, and all pairs of key objects (type x material x kind: generated, loaded, public bytes, certificate-bearing with two different certificates for the same key); each case is run on the real code (generated RSA 1024-4096 and ECDSA keys, bundled key files, seeded passphrases incl. empty/unicode/long/near-miss wrong ones); mode bits, load result, equality/hash/fingerprint are recorded and decided by the trace spec. Spec-guided exploration: abstract space exhaustive, concrete keys and passphrases sampled",
+    "text": "TLC enumerates load histories of one sealed file within a process (passphrase x loader class, all sequences up to a bound), key type x target state (absent, dangling link, existing 0600/0644/0666, file object, bundled file) x umask x write passphrase x load passphrase x loader route, and all pairs of key objects (type x material x kind: generated, loaded, public bytes, certificate-bearing with two different certificates for the same key); each case is run on the real code (generated RSA 1024-4096 and ECDSA keys, bundled key files, seeded passphrases incl. empty/unicode/long/near-miss wrong ones); mode bits, load result, equality/hash/fingerprint are recorded and decided by the trace spec. Spec-guided exploration: abstract space exhaustive, concrete keys and passphrases sampled",
     "note": "trusted: TLC, os.stat/os.umask of the running platform, `cryptography` for loading bundled roots as reference keys; the 0600 clause is asserted only for files the call creates (DESIGN Appendix F) and as 'no group/other permission bits'; the exact exception class of a failed load and the exact create mode are conformance clauses; Ed25519 has no writer in paramiko, so its round trip is bundled file -> load only",
 }
 import io
@@ -13,17 +13,30 @@ from harness.core import cfg_text, Machinery
 from harness.drivers import keys as K
 
 P_INVS = ["PrivateWhenCreated", "RoundTrip", "PassNeeded", "NoOtherKey", "EqOnlyPublic", "HashOnlyPublic",
-          "PublicStable"]
-C_INVS = ["ExactCreateMode", "ExistingModeKept", "LoadInModel", "DistinctDiffer"]
+          "PublicStable", "HistRight", "HistWrong"]
+C_INVS = ["ExactCreateMode", "ExistingModeKept", "LoadInModel", "DistinctDiffer", "HistOther"]
+# the load histories every run replays on the bundled sealed files (lp, lc); the first three also in the quick tier
+BUNDLED_HISTORIES = [[("right", "own"), ("wrong", "own")], [("wrong", "own"), ("right", "own")],
+                     [("right", "own"), ("wrong2", "own")], [("wrong", "other"), ("right", "own")],
+                     [("right", "own"), ("empty", "own")], [("right", "own"), ("wrong", "other"), ("wrong", "own")],
+                     [("wrong", "own"), ("wrong2", "own"), ("right", "own")]]
 SENS = [("create_0644", "PrivateWhenCreated"), ("pass_ignored_on_write", "PassNeeded"),
         ("load_ignores_password", "PassNeeded"), ("eq_private", "EqOnlyPublic"), ("hash_private", "HashOnlyPublic"),
-        ("public_drops_type", "EqOnlyPublic"), ("eq_cert", "EqOnlyPublic")]
+        ("public_drops_type", "EqOnlyPublic"), ("eq_cert", "EqOnlyPublic"),
+        ("kdf_cache_ignores_passphrase", "HistSound")]
 BITS = [("ur", stat.S_IRUSR), ("uw", stat.S_IWUSR), ("ux", stat.S_IXUSR), ("gr", stat.S_IRGRP), ("gw", stat.S_IWGRP),
         ("gx", stat.S_IXGRP), ("or", stat.S_IROTH), ("ow", stat.S_IWOTH), ("ox", stat.S_IXOTH)]
 
 
 def mode_tokens(m):
     return [n for n, b in BITS if m & b]
+
+
+class _Skip:
+    """stands for a key object that could not be obtained; the reason has been recorded as an observation"""
+
+
+SKIP = _Skip()
 
 
 class Runner:
@@ -36,6 +49,7 @@ class Runner:
         self.n = 0
         self.batch, self.info = [], []
         self.executed = set()
+        self.failed = set()
         # RSA-1024 keys by the length of their DER body: a multiple of the cipher block size gets a FULL block of
         # PKCS#7 padding when sealed (about one key in three); generated keys hit either class only by chance
         self.by_alignment = {}
@@ -53,22 +67,36 @@ class Runner:
         self.pool.universes["rsa"].append((self.by_alignment["aligned"], self.by_alignment["unaligned"]))
 
     def get(self, root, prov, variant):
-        """pool.obtain, except that paramiko failing to load back a key file it has just written with the right
-        passphrase is an observation (a failed round trip), not a machinery failure"""
-        try:
-            return self.pool.obtain(root, prov, variant)
-        except K.PoolLoadFailure as e:
-            tok = "unicode" if e.passphrase else "none"
-            rec = dict(kind="file", ktype=root.type, target="file_obj", umask="022", wpass=tok, lpass=tok,
-                       route="file_obj", wres="ok", exists=False, created=False, mode=[],
-                       lres=type(e.exc).__name__, lkey="-")
-            self.batch.append(rec)
-            self.info.append({"case": rec, "key": root.origin, "bits": 0, "write_passphrase": e.passphrase,
-                              "load_passphrase": e.passphrase, "path": None,
-                              "note": "key pool: written by paramiko, loaded via %s: %s" % (e.way, e.exc)})
-            self.c.case(key="pool|%s|%s" % (root.origin, e.way))
-            root.cache[(prov, e.way)] = self.pool.obtain(root, "generated", 0)[0]     # carry on with the original
+        """pool.obtain, except that paramiko failing to write / load a valid key file with its correct passphrase
+        (whatever the route) is an observation - a failed round trip the trace spec judges - never a machinery
+        failure.  -> (object, how), with a signing-capable stand-in (or SKIP) after a recorded failure"""
+        way = self.pool.ways(root, prov)[variant % len(self.pool.ways(root, prov))]
+        if (id(root), prov, way) not in self.failed:
+            try:
+                return self.pool.obtain(root, prov, variant)
+            except K.PoolLoadFailure as e:
+                self.pool_failure(e)
+        if root.type != "ed25519":
             return self.pool.obtain(root, "generated", 0)
+        return SKIP, "%s: not loadable" % root.origin
+
+    def pool_failure(self, e):
+        root = e.root
+        if (id(root), e.prov, e.way) in self.failed:
+            return
+        self.failed.add((id(root), e.prov, e.way))
+        bundled = e.way == "bundled" or root.type == "ed25519"
+        tok = ("ascii" if bundled else "unicode") if e.passphrase else "none"
+        route = {"file_obj": "file_obj", "from_path": "from_path"}.get(e.way, "filename")
+        exc = type(e.exc).__name__
+        rec = dict(kind="file", ktype=root.type, target="bundled" if bundled else "file_obj", umask="022", wpass=tok,
+                   lpass=tok, route=route, wres="ok" if e.stage == "load" else exc, exists=bundled, created=False,
+                   mode=["ur", "uw", "gr", "or"] if bundled else [], lres=exc, lkey="-")
+        self.batch.append(rec)
+        self.info.append({"case": rec, "key": "%s [key pool, %s/%s, %s failed: %s]" % (root.origin, e.prov, e.way, e.stage, e.exc),
+                          "bits": 0, "write_passphrase": e.passphrase, "load_passphrase": e.passphrase,
+                          "path": root.path if bundled else None})
+        self.c.case(key="pool|%s|%s|%s" % (root.origin, e.prov, e.way))
 
     # ---- passphrases
     def passphrase(self, token):
@@ -213,9 +241,95 @@ class Runner:
                     sample=info if (wpass, lpass) in (("unicode", "wrong"), ("ascii", "ascii")) and Creates(target)
                     and len(self.c.samples) < 3 else None)
 
+    # ---- history machine
+    def relation(self, loaded, ref, cls, ktype):
+        """how a loaded key relates to the key that was sealed"""
+        try:
+            same = loaded == ref and ref == loaded and loaded.asbytes() == ref.asbytes() and \
+                hash(loaded) == hash(ref) and type(loaded) is cls
+            lkey = ("equal_private" if loaded.can_sign() else "equal_public") if same else "different"
+            if lkey == "equal_private":       # signing-capable: it does sign, and the original key agrees
+                sig = loaded.sign_ssh_data(b"c36", "rsa-sha2-256" if ktype == "rsa" else None)
+                sig.rewind()
+                if cls(data=ref.asbytes()).verify_ssh_sig(b"c36", sig) is not True:
+                    lkey = "equal_public"
+            return lkey
+        except Exception as e:
+            return "error:" + type(e).__name__
+
+    def hist_case(self, fk, seq, bundled_root=None):
+        """one sealed private key file, loaded len(seq) times in this process; seq = [(lp, lc)]"""
+        import base64
+        import paramiko
+        from cryptography.hazmat.primitives import serialization as ser
+        rnd, pool = self.rnd, self.pool
+        other = {"rsa_openssh": paramiko.Ed25519Key, "ecdsa_openssh": paramiko.RSAKey,
+                 "ed25519_openssh": paramiko.RSAKey, "rsa_pem": paramiko.ECDSAKey}[fk]
+        if bundled_root is not None:
+            root, path, right, origin = bundled_root, bundled_root.path, bundled_root.password, bundled_root.origin
+        else:
+            root = {"rsa_openssh": self.by_alignment["unaligned"], "rsa_pem": self.by_alignment["aligned"],
+                    "ecdsa_openssh": pool.universes["ecdsa256"][0][0], "ed25519_openssh": pool.bundled["ed25519"][0]}[fk]
+            right = self.passphrase(rnd.choice(["ascii", "unicode"]))
+            self.n += 1
+            path = str(self.dir / ("h%d" % self.n))
+            if fk == "rsa_pem":          # sealed by paramiko's own writer
+                try:
+                    pool.obtain(root, "generated", 0)[0].write_private_key_file(path, password=right)
+                except Exception as e:
+                    self.pool_failure(K.PoolLoadFailure(root, "file_pem", "encrypted", right, e, stage="write"))
+                    return
+            else:                        # OpenSSH format, sealed by `cryptography` with a cheap KDF setting
+                priv = root.priv if root.priv is not None else root.cpriv
+                enc = ser.PrivateFormat.OpenSSH.encryption_builder().kdf_rounds(1).build(right.encode())
+                with open(path, "wb") as f:
+                    f.write(priv.private_bytes(ser.Encoding.PEM, ser.PrivateFormat.OpenSSH, enc))
+            origin = root.origin + "/sealed for the history"
+        cls = K.key_class(root.type)
+        ref = pool.obtain(root, "generated", 0)[0] if root.priv is not None else \
+            cls(data=base64.b64decode(root.pub_id.split()[1]))
+        wrong = self.wrong(right)
+        secrets = {"none": None, "right": right, "wrong": wrong, "wrong2": "another-" + wrong[::-1], "empty": ""}
+        steps, detail = [], []
+        for lp, lc in seq:
+            lsecret = secrets[lp]
+            use = cls if lc == "own" else other
+            route = rnd.choice(["filename", "file_obj", "from_path"]) if lc == "own" else rnd.choice(["filename", "file_obj"])
+            try:
+                if route == "filename":
+                    loaded = use(filename=path, password=lsecret)
+                elif route == "file_obj":
+                    with open(path) as f:
+                        loaded = use.from_private_key(io.StringIO(f.read()), password=lsecret)
+                else:
+                    loaded = paramiko.PKey.from_path(path, passphrase=lsecret.encode() if lsecret is not None else None)
+                rel = self.relation(loaded, ref, cls, root.type)
+                res = "ok" if rel == "equal_private" else "loaded_" + rel
+            except Exception as e:
+                loaded, res = None, type(e).__name__
+            steps.append(dict(lp=lp, lc=lc, res=res, loaded=loaded is not None))
+            detail.append("%s/%s via %s %r -> %s" % (lc, lp, route, lsecret, res))
+        rec = dict(kind="hist", fk=fk, steps=steps)
+        self.batch.append(rec)
+        info = {"case": rec, "key": origin, "right_passphrase": right, "loads": detail}
+        self.info.append(info)
+        self.executed.add(("hist", fk, tuple(seq)))
+        self.c.case(key="hist|%s|%s|%s" % (fk, ">".join("%s-%s" % (lc, lp) for lp, lc in seq), origin),
+                    sample=info if [x[0] for x in seq][:2] == ["right", "wrong"] and not any(
+                        isinstance(x, dict) and "loads" in x for x in self.c.samples) else None)
+
     # ---- compare machine
     def obj(self, o, ui, force_k1=None):
-        """a real key object for KeyObj(type, mat, kind); ui picks the universe (force_k1: this root is k1)"""
+        """a real key object for KeyObj(type, mat, kind), or (None, why) when a public encoding does not parse
+        back (an observation of the comparison), or (SKIP, why) when a private key file could not be loaded (already
+        recorded as a file observation)"""
+        try:
+            return self._obj(o, ui, force_k1)
+        except K.PoolLoadFailure as e:
+            self.pool_failure(e)
+            return SKIP, str(e)
+
+    def _obj(self, o, ui, force_k1=None):
         pool, rnd = self.pool, self.rnd
         t = o["type"]
         if force_k1 is not None and force_k1.type == t:
@@ -238,6 +352,8 @@ class Runner:
             i = rnd.choice([i for i, w in enumerate(ways) if w != "cert_blob"])
             try:
                 return pool.obtain(root, "public_bytes", i)
+            except K.PoolLoadFailure:
+                raise
             except Machinery as e:       # the public encoding of an existing key does not parse: an observation
                 return None, "%s/public_bytes/%s: %s" % (root.origin, ways[i], e)
         if kind in ("loaded_cert", "public_cert", "loaded_cert_b", "public_cert_b"):
@@ -261,19 +377,21 @@ class Runner:
                     return None, "%s/%s: %s: %s" % (root.origin, what, type(e).__name__, e)
                 if kind.startswith("loaded"):
                     if root.path:
-                        k = cls(filename=root.path, password=root.password)
-                    else:
                         try:
-                            k = pool._build(root, fileprov, "filename")
-                        except K.PoolLoadFailure as e:
-                            return None, "%s: %s" % (root.origin, e)
+                            k = cls(filename=root.path, password=root.password)
+                        except Exception as e:
+                            raise K.PoolLoadFailure(root, "file_openssh" if root.fmt == "openssh" else "file_pem",
+                                                    "bundled", root.password, e)
+                    else:
+                        k = pool._build(root, fileprov, "filename")
                     k.load_certificate(src)
                     how = "%s/%s+load_certificate(%s)" % (root.origin, fileprov, what)
                 else:
                     k = cls(data=blob)
                     how = "%s/parsed from %s blob" % (root.origin, what)
                 if k.public_blob is None or k.public_blob.key_blob != blob:
-                    raise Machinery("certificate not attached (%s)" % how)
+                    self.c.conformance("C_certificate_not_attached:%s" % K.family(t), "certificate not attached: " + how)
+                    return SKIP, how
                 root.cache[ck] = (k, how)
             return root.cache[ck]
         raise Machinery("kind " + kind)
@@ -281,6 +399,10 @@ class Runner:
     def cmp_case(self, a, b, force_k1=None):
         ui = self.rnd.randrange(6)
         (A, ahow), (B, bhow) = self.obj(a, ui, force_k1), self.obj(b, ui, force_k1)
+        key = ("cmp", a["type"], a["mat"], a["kind"], b["type"], b["mat"], b["kind"])
+        if A is SKIP or B is SKIP:       # the reason is in the batch as a file observation
+            self.executed.add(key)
+            return
         err = "-"
         eq = eq_rev = heq = fpeq = beq = rt = False
         ne = True
@@ -303,7 +425,6 @@ class Runner:
         self.batch.append(rec)
         info = {"case": rec, "a": ahow, "b": bhow, "a_public": A.asbytes().hex() if A is not None else None}
         self.info.append(info)
-        key = ("cmp", a["type"], a["mat"], a["kind"], b["type"], b["mat"], b["kind"])
         self.executed.add(key)
         self.c.case(key="|".join(key) + "|" + ahow + "|" + bhow,
                     sample=info if a["kind"] == "loaded_cert" and b["kind"] in ("public", "public_cert_b") and a["mat"] == b["mat"]
@@ -332,6 +453,22 @@ def describe_factory(run_):
                         r["ktype"], info["key"], info["bits"], r["target"], r["umask"], info["write_passphrase"],
                         r["wres"], "".join(r["mode"]) or "-", r["created"], r["route"], info["load_passphrase"],
                         r["lres"], r["lkey"], clause))
+        elif r["kind"] == "hist":
+            step = row[2] if len(row) > 3 else len(r["steps"])
+            upto = r["steps"][:step]
+            bad_at = [i for i, x in enumerate(upto) if
+                      (clause == "P_correct_passphrase_rejected" and x["lc"] == "own" and x["lp"] == "right" and x["res"] != "ok")
+                      or (clause == "P_loaded_without_passphrase" and x["lc"] == "own" and x["lp"] != "right" and x["loaded"])
+                      or (clause.startswith("C_") and x["lc"] == "other" and x["loaded"])]
+            if bad_at:                   # the load the clause is about (the invariant speaks about all loads so far)
+                step = bad_at[-1] + 1
+                upto = upto[:step]
+            earlier = [x["lp"] for x in upto[:-1] if x["lp"] != "none"]
+            sig = "%s:%s-%s:after-%s" % (r["fk"], upto[-1]["lc"], "right" if upto[-1]["lp"] == "right" else "not-right",
+                                         "nothing" if not earlier else "right" if earlier[0] == "right" else "wrong")
+            what = ("one sealed %s file (%s, passphrase %r) loaded %d times in one process: %s; clause %s fails at "
+                    "load %d" % (r["fk"], info["key"], info["right_passphrase"], len(upto),
+                                 "; ".join(info["loads"][:step]), clause, step))
         else:
             a, b = r["a"], r["b"]
             rel = "same" if (a["type"], a["mat"]) == (b["type"], b["mat"]) else "different"
@@ -346,6 +483,11 @@ def describe_factory(run_):
 
 def run(c):
     replay = getattr(c, "replay_file", None)
+    maxhist = 2 if c.quick else 3
+
+    def consts(defects):
+        return {"Defects": set(defects), "MaxHist": maxhist}
+    hists = []
     if replay:
         # bin/check C36 --replay <file>: the recorded abstract case again (fresh concrete keys), 5 times
         import json
@@ -353,22 +495,42 @@ def run(c):
         files = [(rec["ktype"], rec["target"], rec["umask"], rec["wpass"], rec["lpass"], rec["route"])] \
             if rec["kind"] == "file" else []
         cmps = [["CMP", rec["a"], rec["b"], None]] if rec["kind"] == "cmp" else []
+        if rec["kind"] == "hist":
+            hists = [(rec["fk"], tuple((x["lp"], x["lc"]) for x in rec["steps"]))] * 5
         reps_f = reps_c = 5
     else:
         # ---- M: the property on the model, mutations as sensitivity runs
-        r = c.mc_holds("KeyIO", cfg_text(constants={"Defects": set()}, invariants=P_INVS + C_INVS + ["Emit"]),
+        r = c.mc_holds("KeyIO", cfg_text(constants=consts([]), invariants=P_INVS + C_INVS + ["Emit"]),
                        name="as-stated (Defects = {})", workers=1)
         files = sorted({tuple(x[1:7]) for x in r.printed("FILE")})
         cmps = r.printed("CMP")
-        if not files or not cmps or not any(x[3] for x in cmps) or all(x[3] for x in cmps):
-            raise Machinery("vacuous model: %d file cases, %d comparisons" % (len(files), len(cmps)))
-        # quick: one toggle, rotating with the seed; thorough: all seven
+        hists = sorted({(x[1], tuple((lp, lc) for lp, lc in x[2])) for x in r.printed("HIST")})
+        if not files or not cmps or not any(x[3] for x in cmps) or all(x[3] for x in cmps) or not hists:
+            raise Machinery("vacuous model: %d file cases, %d comparisons, %d histories" % (len(files), len(cmps), len(hists)))
+        # quick: one toggle, rotating with the seed; thorough: all eight
         for d, inv in ([SENS[c.seed % len(SENS)]] if c.quick else SENS):
-            c.mc("KeyIO", cfg_text(constants={"Defects": {d}}, invariants=P_INVS), expect=inv, name="sensitivity " + d)
+            c.mc("KeyIO", cfg_text(constants=consts([d]), invariants=P_INVS if inv in P_INVS else [inv]), expect=inv,
+                 name="sensitivity " + d)
         reps_f, reps_c = (1, 1) if c.quick else (6, 12)
 
-    # ---- RP: every abstract case on the real code
     run_ = Runner(c)
+    # ---- load histories first (the process has loaded nothing yet): a fixed, non-sampled stratum.
+    # every TLC-enumerated history of MaxHist loads on a freshly sealed file per history (own salt), ...
+    for fk, seq in hists:
+        run_.hist_case(fk, list(seq))
+    # ... and the listed histories on the sealed files bundled with the tests (bcrypt at full cost, hence few)
+    if not replay:
+        sealed = [r for t in K.TYPES for r in run_.pool.bundled[t] if r.password]
+        if c.quick:
+            sealed = [r for r in sealed if r.origin.endswith(("test_rsa_openssh.key", "test_ed25519_password.key"))]
+        for root in sealed:
+            fk = "rsa_pem" if root.fmt == "pem" and root.type == "rsa" else \
+                {"rsa": "rsa_openssh", "ed25519": "ed25519_openssh"}.get(root.type, "ecdsa_openssh")
+            if root.fmt == "pem" and root.type != "rsa":
+                continue             # (ECDSA PEM: same reader as rsa_pem)
+            for seq in BUNDLED_HISTORIES[:3] if c.quick else BUNDLED_HISTORIES:
+                run_.hist_case(fk, seq, bundled_root=root)
+    # ---- RP: every abstract case on the real code
     for _ in range(reps_f):
         for case in files:
             run_.file_case(case)
@@ -399,7 +561,7 @@ def run(c):
                         run_.cmp_case({"type": t, "mat": "k1", "kind": ka}, {"type": t, "mat": "k1", "kind": kb},
                                       force_k1=root)
     want = {("file",) + f for f in files} | {("cmp", a["type"], a["mat"], a["kind"], b["type"], b["mat"], b["kind"])
-                                            for _, a, b, _ in cmps}
+                                            for _, a, b, _ in cmps} | {("hist", fk, tuple(seq)) for fk, seq in hists}
     if want - run_.executed:
         raise Machinery("%d abstract cases not executed" % len(want - run_.executed))
 
@@ -409,7 +571,7 @@ def run(c):
     for off in range(0, len(run_.batch), chunk):
         part = run_.batch[off:off + chunk]
         # (one JSON batch holds both record kinds; give both the same fields so TLC sees one record shape)
-        res, _ = c.trace("KeyIO_Trace", part, cfg_text(spec="TSpec", constants={"Defects": set()}, invariants=["Report"]),
+        res, _ = c.trace("KeyIO_Trace", part, cfg_text(spec="TSpec", constants={"Defects": set(), "MaxHist": 3}, invariants=["Report"]),
                          timeout=1200)
         if len(res["DONE"]) != len(part):
             raise Machinery("trace validation consumed %d of %d records" % (len(res["DONE"]), len(part)))
@@ -422,9 +584,12 @@ def run(c):
               "state x umask x write passphrase x load passphrase x loader route, incl. bundled key files) and %d "
               "ordered pairs of key objects (type x material x kind); each executed %d / %d times with seeded concrete "
               "keys (RSA %s bits, ECDSA P-256/384/521, bundled Ed25519), passphrases and API variants; distinct = "
-              "distinct (abstract case, concrete key origin, passphrases)" % (
-                  len(files), len(cmps), reps_f, reps_c, "1024/2048" if c.quick else "1024/2048/3072/4096"))
-    c.extra["abstract_cases"] = len(files) + len(cmps)
+              "distinct (abstract case, concrete key origin, passphrases); plus a fixed stratum of %d load histories "
+              "(every sequence of %d loads of one freshly sealed file over passphrase {none, right, wrong, wrong2, "
+              "empty} x loader class {own, other} x 4 file kinds, and listed histories on the bundled sealed files)" % (
+                  len(files), len(cmps), reps_f, reps_c, "1024/2048" if c.quick else "1024/2048/3072/4096",
+                  len(hists), maxhist))
+    c.extra["abstract_cases"] = len(files) + len(cmps) + len(hists)
     c.extra["abstract_exhaustive"] = True
     c.extra["load_results"] = {k: sum(1 for b in run_.batch if b.get("lres") == k)
                                for k in sorted({b["lres"] for b in run_.batch if "lres" in b})}
